@@ -67,7 +67,10 @@ func c14Build(cfg c14Cfg, customize bool) *c14World {
 	if cfg.Cluster {
 		pk = kit.CThing
 	}
-	o := dcOpt{parents: []*sim.Kind{pk}, attachments: []*sim.Kind{kit.Leaf}, ignoreStatus: cfg.IgnoreStatus, customize: customize, finalize: !cfg.NoFinalize}
+	// a second resource rule of the same API version (nothings) with the OPPOSITE ignoreStatusChanges setting: each
+	// rule's setting applies to its own kind only
+	o := dcOpt{parents: []*sim.Kind{kit.NoThing, pk}, attachments: []*sim.Kind{kit.Leaf}, ignoreStatus: cfg.IgnoreStatus, customize: customize, finalize: !cfg.NoFinalize,
+		ignoreFor: map[string]bool{"nothings": !cfg.IgnoreStatus}}
 	if cfg.Selector {
 		o.labelSel = &metav1.LabelSelector{MatchLabels: map[string]string{"app": "x"}}
 	}
